@@ -39,6 +39,50 @@ let is_bits k = (k = "enum" || k = "float" || k = "double")
 
 let show_res f = function Some (Ok v) -> "V " ^ f v | Some Abort -> "ABORT" | Some _ -> "OTHER" | None -> "NOCOMPILE"
 
+(* whole-array store / load of T[6] and T[2][3]: six consecutive guest elements, row-major *)
+let handle_arr (toks : string list) : (string * string * string) option =
+  match toks with
+  | op :: rest when String.length op >= 4 && (String.sub op 0 3 = "sta" || String.sub op 0 3 = "lda") &&
+                    List.mem (String.sub op 3 (String.length op - 3)) ["32"; "16"; "w"] ->
+    let c = cfg_of (String.sub op 3 (String.length op - 3)) in
+    let store = String.sub op 0 3 = "sta" in
+    let (variant, kind, shape, off, seed, tl) = (match store, rest with
+        | true, k :: sh :: o :: sd :: vs -> ("", k, sh, int_of_string o, int_of_string sd, vs)
+        | false, v :: k :: sh :: o :: sd :: vs -> (v, k, sh, int_of_string o, int_of_string sd, vs)
+        | _ -> failwith "bad array case") in
+    let addr = Z.add base (zi off) in
+    let gsize = if is_bits kind then Some (bits_width kind) else (match sbx_equiv c.a (kind_of_string kind) with Some sk -> Some (int_of_z (size sk)) | None -> None) in
+    (match gsize with
+     | None -> Some ("NOCOMPILE", "NOCOMPILE", op ^ ":nomap")
+     | Some gs ->
+       let cls = op ^ ":" ^ shape ^ ":" ^ (if variant = "" then "store" else variant) ^
+                 (if (not (is_bits kind)) && gs <> int_of_z (size (kind_of_string kind)) then ":resize" else ":same") in
+       let dump m = (let buf = Buffer.create 100 in
+                     for i = 0 to 6 * gs - 1 do Buffer.add_string buf (hex2 (int_of_z (m (Z.add addr (zi i))))) done;
+                     "W " ^ Buffer.contents buf ^ " outside=clean") in
+       if store then begin
+         let vals = List.map z_of_string tl in
+         let rec go m i = function
+           | [] -> Some m
+           | v :: vs ->
+             let a = Z.add addr (zi (i * gs)) in
+             if is_bits kind then go (store_bits (zi gs) a v m) (i + 1) vs
+             else (match store_int c.a (kind_of_string kind) a v m with
+                 | Some (Ok m') -> go m' (i + 1) vs
+                 | _ -> None) in
+         let r = (match go (mem0 seed) 0 vals with Some m -> dump m | None -> "ABORT") in
+         Some (r, r, cls ^ (if r = "ABORT" then ":abort" else ""))
+       end else begin
+         let m = (match tl with [h] -> write (mem0 seed) addr (bytes_of_hex h) | _ -> mem0 seed) in
+         let one i = (let a = Z.add addr (zi (i * gs)) in
+                      if is_bits kind then Some (string_of_z (load_bits (zi gs) a m))
+                      else (match load_int c.a (kind_of_string kind) a m with Some (Ok v) -> Some (string_of_z v) | _ -> None)) in
+         let vs = List.init 6 one in
+         let r = if List.for_all (fun x -> x <> None) vs then "V " ^ String.concat "," (List.map (function Some x -> x | None -> "?") vs) else "ABORT" in
+         Some (r, r, cls ^ (if r = "ABORT" then ":abort" else ""))
+       end)
+  | _ -> None
+
 let handle (toks : string list) : (string * string * string) option =
   match toks with
   | op :: rest when String.length op >= 3 && (String.sub op 0 2 = "st" || String.sub op 0 2 = "ld") &&
